@@ -159,7 +159,9 @@ Definition os_write (f : fs) (t : tgt) (data : bytes) : res fs :=
   | None =>
     match lookup f (t_path t) with
     | Some Dir => Err EISDIR
-    | Some (File _) => match t_trail t with TNone => Ok (set f (t_path t) (File data)) | _ => Err ENOTDIR end
+    | Some (File _) =>
+      (* O_CREAT with a trailing slash is EISDIR before the last component is looked at; "file/." fails in the walk *)
+      match t_trail t with TNone => Ok (set f (t_path t) (File data)) | TSlash => Err EISDIR | TDot => Err ENOTDIR end
     | None =>
       match t_trail t with
       | TNone => Ok (set f (t_path t) (File data))
@@ -212,7 +214,8 @@ Definition os_rename_file (f : fs) (src dst : tgt) : res fs :=
         | Some (File _), TNone => Ok (set (unset f (t_path src)) (t_path dst) (File b))
         | Some (File _), _ => Err ENOTDIR
         | None, TNone => Ok (set (unset f (t_path src)) (t_path dst) (File b))
-        | None, _ => Err ENOTDIR
+        | None, TSlash => Err ENOTDIR
+        | None, TDot => Err ENOENT
         end
       end
     | Some (File _), _ => Err ENOTDIR
@@ -268,6 +271,19 @@ Definition utf8_ok (s : bytes) : bool := utf8_ok_fuel (length s) s.
 
 Definition os_rm_empty_tree (f : fs) (t : tgt) : fs :=
   if os_is_dir f t then rm_empty_tree f (t_path t) else f.
+
+(* remove the directories at and below a (a itself a directory) that have no file anywhere below them: a recursive
+   bottom-up `remove_dir` that ignores errors (rip-workspace `remove_empty_dirs`, used by the patch revert) *)
+Definition is_dirnode (n : node) : bool := match n with Dir => true | File _ => false end.
+Definition prune_dirs (f : fs) (a : path) : fs :=
+  match a with
+  | [] => f
+  | _ => if is_dir f a
+         then filter (fun qn => negb (under a qn && is_dirnode (snd qn) && negb (file_under f (fst qn)))) f
+         else f
+  end.
+Definition os_prune_dirs (f : fs) (t : tgt) : fs :=
+  if os_is_dir f t then prune_dirs f (t_path t) else f.
 
 (* byte strings from Coq string literals (model constants only) *)
 Require Import Coq.Strings.String Coq.Strings.Ascii.
